@@ -3,7 +3,8 @@
 types.Big5ToUtf8 / types.Utf8ToBig5 (all 65 536 two-byte Big5 inputs, every row of both tables, all
 one/two-byte and all three-byte lead/continuation patterns of UTF-8, generated malformed strings), plus the initialisation
 paths: histories of start-up attempts (good, bad path of either table then retry, repeated) each in a fresh driver process and
-followed by a reduced sweep, and ptttype.InitConfig() sequences (BBSNAME_BIG5 must be the conversion of BBSNAME)."""
+followed by a reduced sweep, whole start-ups (op 12: TIME_LOCATION that loads or not; table paths that are symbolic links of every kind,
+created for real by the driver) with the same predicate, and ptttype.InitConfig() sequences (BBSNAME_BIG5 must be the conversion of BBSNAME)."""
 import os, resource, sys
 from concurrent.futures import ThreadPoolExecutor
 sys.path.insert(0, os.path.join(os.path.dirname(os.path.abspath(__file__)), "..", "lib"))
@@ -467,14 +468,48 @@ def main():
         histories.append([(rng.randrange(4), rng.randrange(4)) for _ in range(rng.randrange(1, 4))] + [(0, 0)])
 
     def hist_txt(h):
-        return " ".join("%d %d" % a for a in h)
+        return " ".join(" ".join(map(str, a)) for a in h)
+
+    def op_of(h):
+        """pairs (pb, pu): op 10; triples (tz, pb, pu): op 12 — whole start-ups with a time zone and linked table paths"""
+        return 12 if h and len(h[0]) == 3 else 10
+
+    TZ_LOADS = {0: True, 1: True, 2: False, 3: False}                     # c17start.go: UTC, Local, unknown name, rejected name
+    PATH_READS = {0: True, 1: False, 2: False, 3: False, 4: True, 5: True, 6: True, 7: True, 8: False, 9: False}
+    LINKED = {4, 5, 7}                                                    # the last component of the path is a symbolic link to the table
+
+    def legend(h):
+        if op_of(h) == 10:
+            return "pairs: BIG5_TO_UTF8 path, UTF8_TO_BIG5 path; 0 good, 1 missing, 2 directory, 3 empty"
+        return ("triples: TIME_LOCATION, BIG5_TO_UTF8 path, UTF8_TO_BIG5 path; time zone 0 UTC, 1 Local, 2 unknown zone (what a host without "
+                "zoneinfo answers), 3 rejected name; path 0 good, 1 missing, 2 directory, 3 empty, 4 symlink (absolute target), 5 symlink (relative target), "
+                "6 file in a symlinked directory, 7 link to a link, 8 dangling link, 9 link to a directory")
+
+    def attempt_class(a):
+        tz, pb, pu = a
+        cls = []
+        if not TZ_LOADS[tz]:
+            cls.append("time-zone-does-not-load")
+        if pb in LINKED or pu in LINKED:
+            cls.append("symlinked-table-path")
+        elif pb == 6 or pu == 6:
+            cls.append("symlinked-directory")
+        if not (PATH_READS[pb] and PATH_READS[pu]):
+            cls.append("unreadable-table-path")
+        return "+".join(cls) or "plain-files"
 
     def hist_key(h, sts=None):
         """class of a history: which table path was bad in the attempts that failed before the last one"""
         if not h:
             return "no-start-up"
         if sts is None or len(sts) != len(h):
-            return ",".join("%d-%d" % a for a in h)
+            return attempt_class(h[-1]) if op_of(h) == 12 else ",".join("%d-%d" % a for a in h)
+        if op_of(h) == 12:
+            # class of a whole start-up: the environment of the last attempt, and whether anything came before it
+            cls = attempt_class(h[-1])
+            if sts[-1] != 0:
+                return "start-up-refused:" + cls
+            return cls + (":first-start-up" if len(h) == 1 else ":later-start-up")
         bad = set()
         for (pb, pu), st in zip(h[:-1], sts[:-1]):
             if st != 0:
@@ -507,19 +542,36 @@ def main():
         n = int(t[1])
         return [int(x) for x in t[2:2 + n]], t[2 + n:]
 
-    init_lines = ["10|%s|%s" % (hist_txt(h), sweep_txt) for h in histories]
+    # whole start-ups (op 12): the environment a server is started in — TIME_LOCATION that loads or not, table paths that are
+    # regular files, symbolic links (absolute / relative / chained / dangling / to a directory) or files in a linked directory
+    starts = [[(0, 4, 4)], [(0, 5, 5)], [(1, 7, 7)], [(0, 6, 6)],          # both tables through links of each kind, first start-up
+              [(0, 0, 5)], [(0, 4, 0)],                                    # one table linked
+              [(0, 8, 0), (0, 4, 5)], [(0, 0, 9), (1, 5, 7)],              # dangling link / link to a directory, then repaired with links
+              [(2, 0, 0)], [(3, 0, 0)], [(2, 4, 5)],                       # the time zone does not load: the start-up must be refused ...
+              [(2, 0, 0), (0, 0, 0)], [(3, 1, 0), (2, 0, 0), (1, 0, 0)],   # ... and a later one with a time zone loads the tables
+              [(0, 0, 0), (2, 0, 0)], [(0, 0, 1), (2, 0, 0)],              # loaded / half loaded, then an attempt without time zone
+              [(1, 0, 0)]]
+    for _ in range(16 if thorough else 3):
+        starts.append([(rng.randrange(4), rng.randrange(10), rng.randrange(10)) for _ in range(rng.randrange(1, 4))])
+    for _ in range(8 if thorough else 2):
+        starts.append([(rng.randrange(4), rng.randrange(10), rng.randrange(10)) for _ in range(rng.randrange(0, 3))]
+                      + [(rng.randrange(2), rng.choice([0, 4, 5, 6, 7]), rng.choice([0, 4, 5, 6, 7]))])
+    n_plain = len(histories)
+    histories = histories + starts
+    init_lines = ["%d|%s|%s" % (op_of(h), hist_txt(h), sweep_txt) for h in histories]
     # vf.run_model remembers a few short lines of each call for the vm_compute cross-check of the extraction inside Coq, up to
     # a fixed number; an op-10/11 line costs several seconds there (the kernel loads the tables again). So: one short line of
     # each op first (they are cross-checked), then cheap lines that use up the remaining slots.
-    short = ["10|0 1 0 0|2 228 184 128|3 164 64|1 65 164", "11|0 0|1 %s|0" % toks(list("測試站a".encode("utf-8")))]
+    short = ["10|0 1 0 0|2 228 184 128|3 164 64|1 65 164", "11|0 0|1 %s|0" % toks(list("測試站a".encode("utf-8"))),
+             "12|2 0 0 0 8 5 1 4 7|2 228 184 128|3 164 64"]
     if model:
-        vf.correspond(c, "start-up history / site name, short lines (ops 10, 11)", short, [fresh(l) for l in short], vf.run_model(model, short))
+        vf.correspond(c, "start-up history / site name / whole start-up, short lines (ops 10, 11, 12)", short, [fresh(l) for l in short], vf.run_model(model, short))
         for _ in range(3):
             vf.run_model(model, ["1|65 164 64", "2|228 184 128 65", "1|164"])
     with ThreadPoolExecutor(max_workers=6) as ex:
         init_io = list(ex.map(fresh, init_lines))
     if model:
-        vf.correspond(c, "start-up histories in fresh processes + reduced sweep (op 10)", init_lines, init_io, par_model(init_lines),
+        vf.correspond(c, "start-up histories in fresh processes + reduced sweep (ops 10, 12)", init_lines, init_io, par_model(init_lines),
                       describe=lambda cs: "history " + cs.split("|")[1])
     c.count(len(init_lines) * (1 + len(sweep)), "start-up histories x reduced sweep (fresh process each)")
     reported = set()
@@ -529,7 +581,7 @@ def main():
         ps = parse_sts(r.split())
         if ps is None:
             c.violation("init-status:" + hist_key(h), "start-up history [%s] in a fresh process: the driver ends with status %s" % (hist_txt(h), r.split()[:1]),
-                        {"cases": ["10|%s|%s" % (hist_txt(h), "1 164 64")], "env": FRESH, "got": r[:200], "expected_status": "0"})
+                        {"cases": ["%d|%s|%s" % (op_of(h), hist_txt(h), "1 164 64")], "env": FRESH, "got": r[:200], "expected_status": "0", "legend": legend(h)})
             continue
         sts, rest = ps
         must_be_exact = bool(sts) and sts[-1] == 0          # the last start-up returned nil: this is a server that runs
@@ -553,14 +605,15 @@ def main():
                 key, what = "init-%s:%s" % (pred, hist_key(h, sts)), "gives [%s], expected [%s]" % (" ".join("%02X" % x for x in got), " ".join("%02X" % x for x in want))
             if key and key not in reported:
                 reported.add(key)
-                one = "10|%s|%d %s" % (hist_txt(h), d, toks(inp))
+                one = "%d|%s|%d %s" % (op_of(h), hist_txt(h), d, toks(inp))
                 again = fresh(one)                            # the minimal scenario by itself, in its own fresh process
                 exp = "0 %d %s 0 %d %s" % (len(sts), " ".join(map(str, sts)), len(want), toks(want)) if want is not None else None
                 fn = {1: "Big5ToUtf8", 2: "Utf8ToBig5", 3: "Utf8ToBig5(Big5ToUtf8(.))", 4: "Big5ToUtf8(Utf8ToBig5(.))"}[d]
-                c.violation(key, "after the start-up history [%s] (pairs: BIG5_TO_UTF8 path, UTF8_TO_BIG5 path; 0 good, 1 missing, 2 directory, 3 empty) whose attempts returned %s "
-                                 "(0 = nil), %s on [%s] %s" % (hist_txt(h), sts, fn, " ".join("%02X" % x for x in inp), what),
+                c.violation(key, "after the start-up history [%s] (%s) whose attempts returned %s "
+                                 "(0 = nil), %s on [%s] %s" % (hist_txt(h), legend(h), sts, fn, " ".join("%02X" % x for x in inp), what),
                             dict({"cases": [one], "env": FRESH, "got": again}, **({"expected": exp.strip()} if exp else {"expected_status": "0"})))
-    c.cov["init_histories"] = {"run": len(histories), "ending_in_nil_start_up": n_exact_states, "conversions_per_history": len(sweep)}
+    c.cov["init_histories"] = {"run": len(histories), "of_them_whole_start_ups_with_time_zone_and_links": len(histories) - n_plain,
+                               "ending_in_nil_start_up": n_exact_states, "conversions_per_history": len(sweep)}
     k = histories.index([(0, 1), (0, 0)])
     c.sample({"op": "start-up history, then Utf8ToBig5", "history": "UTF8_TO_BIG5 missing, then fixed", "statuses+first conversion": " ".join(init_io[k].split()[:9])})
 
@@ -639,7 +692,8 @@ def main():
         "both round trips on each of the %d codes the two tables map to each other" % len(mutual),
     ]
     c.cov["init_paths"] = ("%d start-up histories (good; bad UTF8_TO_BIG5 path then retry; bad BIG5_TO_UTF8 path then retry; twice; missing file / directory / empty path; "
-                           "no successful start-up; PRNG histories), each in a fresh driver process through types.InitConfig(), each followed by %d conversions "
+                           "no successful start-up; PRNG histories; whole start-ups with TIME_LOCATION UTC / Local / unknown zone / rejected name and table paths as symbolic links "
+                           "with absolute / relative / chained targets, files in a linked directory, dangling links, links to a directory), each in a fresh driver process through types.InitConfig(), each followed by %d conversions "
                            "(first/last/random rows of both tables, mutual round trips, strings); %d ptttype.InitConfig() sequences (configured / default / empty / "
                            "repeated / unmapped / malformed site names) with BBSNAME_BIG5 compared to types.Utf8ToBig5(BBSNAME)" % (len(histories), len(sweep), len(bbs_scen)))
     c.finish(rule="enumerations as listed in exhaustive_parts + PRNG(seed) strings: Big5 side ASCII runs / mapped / unmapped pairs / odd and dangling lead bytes / random bytes; UTF-8 side ASCII runs / table code points / "
@@ -651,7 +705,11 @@ def main():
                           "tables are loaded as types.SetIsTest(\"main\") does in a process whose working directory is the repository root (sweeps), "
                           "or through types.InitConfig() with the paths in the viper configuration (initialisation paths)",
                           "an unreadable table file is modelled as 'os.Open or io.ReadAll fails before any row is stored' (missing file, directory, empty path); "
-                          "a readable file is the table gosync re-read; a read error in the middle of a file is not modelled"])
+                          "a readable file is the table gosync re-read; a read error in the middle of a file is not modelled",
+                          "start-up environment: 'a symbolic link reads as the file it finally points to' and 'postConfig() returns the time-zone error before initBig5()' are "
+                          "the model (theorems C17_start_*); that the real os.Open / io.ReadAll / time.LoadLocation behave so is validated, not proved: real links in a scratch "
+                          "directory, real zone names, and table exactness / round trip demanded after every start-up that returned nil. A host without zoneinfo is represented "
+                          "by an unknown zone name (same error return); FIFOs and other special files as table paths are not exercised"])
 
 
 def is_mutual_big5(s, mutual):
